@@ -86,6 +86,7 @@ def run(S):
     rule_rbk_layer(S)
     rule_rbk_sizes(S)
     rule_end_layer(S)
+    rule_key(S)
     # the validation primitive itself: a split sends the reader back to the root (shared with C06)
     from checks.C06 import rule_eq
     rule_eq(S)
@@ -98,6 +99,78 @@ def run(S):
     shared.structure(S)
     shared.names(S, ('yakushima::scan',))
     shared.gc_safety(S)
+
+
+def rule_key(S, rule='R-KEY'):
+    """R-KEY: the key reported for an entry is rebuilt for that entry (finding of seed C13e)."""
+    from yk.flow import Explorer
+    facts = S.facts()
+    S.rule(rule, 'scan_border<V>: the std::string holding the full key of the visited entry is (re)defined - declared, '
+                 'assigned, or cut back to the layer prefix (assign / replace / resize / erase / clear / operator=) - on '
+                 'every path from the start of an entry visit (the rank -> slot lookup) to its use in a push or a nested '
+                 'scan; an append alone extends whatever the previous entry (or the aborted pass before a retry) left')
+    REDEF = ('assign', 'replace', 'resize', 'erase', 'clear', 'operator=')
+    n = 0
+    for f in [g for g in facts.by_qname(Y + 'scan_border') if not g.is_lambda]:
+        # the key buffer: a std::string local that is handed to the result push / the nested scan
+        strs = {v['id']: v['name'] for nd in f.all_nodes() if nd['k'] == 'DeclStmt' for v in nd.get('vars', [])
+                if v['type'].replace('const ', '').startswith('std::basic_string<char') or v['type'] == 'std::string'}
+        lambdas = list(facts.lambdas_of(f))
+        used = set()
+        for g in [f] + lambdas:
+            for nd in g.all_nodes():
+                if nd['k'] in CALL_KINDS and (nd.get('cn') in ('emplace_back', 'push_back', 'make_tuple') or
+                                             (nd.get('callee') or '').startswith(Y + 'scan')):
+                    for a in call_args(g, nd):
+                        for x in g.walk(a):
+                            if x['k'] == 'DeclRefExpr' and x.get('id') in strs:
+                                used.add(x['id'])
+        if len(used) != 1:
+            raise AnalysisBroken('%s: the full-key buffer of scan_border was not identified (%d candidates)' % (rule, len(used)))
+        key = next(iter(used))
+        sites = {}
+
+        def uses_key(g, nd):
+            return any(x['k'] == 'DeclRefExpr' and x.get('id') == key for a in call_args(g, nd) for x in g.walk(a))
+
+        def make_step(g):
+            def step(ctx, nd, st):
+                if is_call(nd, cq=Y + 'permutation::get_index_of_rank'):
+                    return 'stale'        # a new entry visit begins
+                if nd['k'] == 'DeclStmt' and any(v['id'] == key for v in nd.get('vars', [])):
+                    return 'fresh'
+                if nd['k'] in CALL_KINDS and nd.get('cn') in REDEF and root_var(g, call_recv(g, nd)) == key:
+                    return 'fresh'
+                if nd['k'] == 'CXXOperatorCallExpr' and nd.get('cn') == 'operator=' and nd.get('args') and \
+                        root_var(g, g.node(nd['args'][0])) == key:
+                    return 'fresh'
+                tg = R.lambda_target(facts, g, nd)
+                if tg is not None:
+                    ex2 = Explorer(tg, make_step(tg), None)
+                    ex2.run(st)
+                    outs = set(ex2.exit_states) | {s_ for s_, _ in ex2.return_states}
+                    return list(outs) or [st]
+                if nd['k'] in CALL_KINDS and (nd.get('cn') in ('emplace_back', 'push_back') or
+                                             (nd.get('callee') or '').startswith(Y + 'scan')) and uses_key(g, nd):
+                    e = sites.setdefault('%s at %s' % (nd.get('cn') or 'call', short_loc(nd)), {'ok': True, 'loc': short_loc(nd), 'path': None})
+                    if st != 'fresh':
+                        e['ok'] = False
+                        e['path'] = e['path'] or ctx.witness()
+                if nd['k'] == 'ReturnStmt':
+                    return st if g is not f else None
+                return st
+            return step
+
+        Explorer(f, make_step(f), None).run('stale')
+        fname = f.qname + '<%s>' % f.targs
+        for site, e in sorted(sites.items()):
+            n += 1
+            S.ob(rule, fname, 'key handed to ' + site, e['ok'],
+                 'rebuilt for the visited entry on every path' if e['ok'] else
+                 'the key buffer is not rebuilt on some path of an entry visit (e.g. an entry with an empty slice): the '
+                 'entry is reported under the key left by the previous entry or by the pass before a retry',
+                 loc=e['loc'], path=e['path'])
+    S.require(rule, 'uses of the full key in scan_border', n, 2)
 
 
 SHRINKS = ('erase', 'resize', 'pop_back', 'clear')
